@@ -49,7 +49,68 @@ def rkey(r, alpha, maxlen, stored):
     return tuple(r.choice(alpha) for _ in range(r.randint(1, maxlen)))
 
 
+LOW = [0x61, 0x65, 0x7a, 0x7f, 0x01]
+HIGH = [0x80, 0xa9, 0xc3, 0xe9, 0xff]
+
+
+def ralpha(r):
+    """3 letters a,b,c; 20% of the histories: 3-4 bytes mixing ASCII with bytes >= 0x80 (and 0x7f), so that the
+    signed order of std::map<char> and of the frozen binary search matters among siblings"""
+    if r.random() < 0.8:
+        return [0x61, 0x62, 0x63]
+    n = r.choice([3, 4])
+    nl = r.randint(1, n - 1)
+    return r.sample(LOW, nl) + r.sample(HIGH, n - nl)
+
+
+def gen_dense(r):
+    """every key of length <= 2 (sometimes a few of length 3) in random order: several nodes with the full fan-out,
+    then removals of inner keys, all observed frozen and unfrozen"""
+    alpha = ralpha(r)
+    chk = "chk %s 3" % hx(alpha)
+    keys = [()] + [(a,) for a in alpha] + [(a, b) for a in alpha for b in alpha]
+    keys += [tuple(r.choice(alpha) for _ in range(3)) for _ in range(r.randint(0, 4))]
+    r.shuffle(keys)
+    keys = keys[:r.randint(len(keys) * 2 // 3, len(keys))]
+    h = ["auto %d" % r.randint(0, 1)]
+    for i, k in enumerate(keys):
+        h.append("add %s %d" % (hx(k), i + 1))
+    h += [chk, r.choice(["freeze", "defrost"]), chk]
+    for k in r.sample(keys, min(len(keys), r.randint(2, 6))):
+        h += ["rm " + hx(k), chk]
+    h += ["freeze", chk]
+    return h
+
+
+def gen_prefix_remove(r):
+    """autoFreeze on: remove a key that is a proper prefix of other stored keys (node count unchanged), query frozen"""
+    alpha = ralpha(r)
+    qlen = 4
+    chk = "chk %s %d" % (hx(alpha), qlen)
+    base = tuple(r.choice(alpha) for _ in range(r.randint(0, 2)))
+    exts = [base + tuple(r.choice(alpha) for _ in range(r.randint(1, 3 - len(base)))) for _ in range(r.randint(1, 3))]
+    keys = [base] + exts
+    if r.random() < 0.5:
+        keys.append(tuple(r.choice(alpha) for _ in range(r.randint(1, 3))))
+    r.shuffle(keys)
+    h = ["auto 1"]
+    for i, k in enumerate(keys):
+        h.append("add %s %d" % (hx(k), i + 1))
+    h += [chk, "rm " + hx(base), chk]
+    if r.random() < 0.5:
+        h += ["add %s 9" % hx(base), chk]
+    if r.random() < 0.5:
+        h += ["rm " + hx(r.choice(exts)), chk]
+    h += ["defrost", chk]
+    return h
+
+
 def gen_history(r):
+    shape = r.random()
+    if shape < 0.07:
+        return gen_dense(r)
+    if shape < 0.17:
+        return gen_prefix_remove(r)
     shape = r.random()
     if shape < 0.5:
         maxlen, qlen = 2, 3
@@ -57,9 +118,9 @@ def gen_history(r):
         maxlen, qlen = 3, 4
     else:
         maxlen, qlen = 5, 6
-    alpha = [0x61, 0x62, 0x63]
-    if r.random() < 0.08:
-        alpha = r.sample([0x61, 0x62, 0xe9, 0x80, 0x7f, 0x01, 0xff], 3)   # bytes >= 0x80: signed char order
+    alpha = ralpha(r)
+    if len(alpha) > 3 and maxlen == 5:
+        alpha = alpha[:3]
     al = hx(alpha)
     chk = "chk %s %d" % (al, qlen)
     h = ["auto %d" % r.randint(0, 1)]
@@ -74,7 +135,11 @@ def gen_history(r):
             h.append("add %s %d" % (hx(key), val))
             stored.add(key)
         elif k < 0.74:
-            key = rkey(r, alpha, maxlen, stored)
+            inner = [s for s in stored if any(t != s and t[:len(s)] == s for t in stored)]
+            if inner and r.random() < 0.4:
+                key = r.choice(sorted(inner))           # a proper prefix of another stored key
+            else:
+                key = rkey(r, alpha, maxlen, stored)
             h.append("%s %s" % ("rm" if r.random() < 0.7 else "rmc", hx(key)))
             stored.discard(key)
         elif k < 0.82:
@@ -127,21 +192,27 @@ CORPUS = [
      "chk 626c7565 5", "freeze", "chk 676f64 5", "rm 626c7565", "chk 626c7565 5", "copy", "chk 626c7565 5"],
     # index shifting: remove the first of three, then re-add
     ["auto 1", "add 61 1", "add 62 2", "add 63 3", "rm 61", "chk 616263 2", "add 61 4", "chk 616263 2", "rm 62", "chk 616263 2"],
-    # signed char order in the frozen binary search
+    # signed char order in the frozen binary search: ASCII siblings mixed with bytes >= 0x80 (UTF-8 "é" = c3 a9)
+    ["auto 1", "add 65 1", "add c3a9 2", "add 7a 3", "add ff 4", "add 7f 5", "chk 65c37aff7f 2", "rm 65", "chk 65c37aff7f 2"],
+    ["auto 0", "add c3a9 1", "add c3 2", "add 61 3", "add 80 4", "freeze", "chk c3a96180 3", "rm c3", "freeze", "chk c3a96180 3"],
+    # autoFreeze on, removing a proper prefix of another stored key (node count unchanged), queried frozen
+    ["auto 1", "add 6162 1", "add 61 2", "add 616263 3", "rm 61", "chk 616263 4", "rm 6162", "chk 616263 4", "defrost", "chk 616263 4"],
     ["auto 1", "add e9 1", "add 61 2", "add 80 3", "add 7f 4", "add ff 5", "add 01 6", "chk 61e9807fff01 2"],
 ]
 
 
 def main(argv):
     ck = Check("C28", argv)
-    ck.rule = ("histories of add/rm/freeze/defrost/clear/autoFreeze/copy over a 3-letter alphabet (8% of histories use "
-               "bytes >= 0x80), keys of length 0..2, 0..3 or 0..5 chosen to form prefix chains (extend / truncate / "
+    ck.rule = ("histories of add/rm/freeze/defrost/clear/autoFreeze/copy over a 3-letter alphabet (20% of histories use "
+               "3-4 bytes mixing ASCII, 0x7f and bytes >= 0x80; 7% dense fan-out histories; 10% autoFreeze histories removing a proper prefix), keys of length 0..2, 0..3 or 0..5 chosen to form prefix chains (extend / truncate / "
                "perturb a stored key), each mutating op followed by `chk`: every query string up to length 3, 4 or 6 "
-               "observed through getLongest/get/has on the current representation; plus every history of <= 3 "
-               "(thorough: 4) operations over the 7 keys of length <= 2 on {a,b} with autoFreeze on and off. "
+               "observed through getLongest/get/has on the current representation; plus every history of <= 2 "
+               "(thorough: <= 3) operations over the 7 keys of length <= 2 on {a,b} with autoFreeze on and off and a "
+               "sample of 1000 (thorough: 30000) histories of the next depth. "
                "Non-trivial = at least one successful lookup observed; distinct by SHA-1 of the op text")
     ck.assumptions = ["keys and queries are NUL-terminated C strings without embedded NUL",
                       "char is signed (x86-64); the model orders characters by their signed value"]
+    ck.translate(["gen_trie"])
     ck.prove("C28")
     hb = ck.harness("h_trie")
     db = ck.driver("drv_trie")
@@ -149,18 +220,17 @@ def main(argv):
     if ck.replay:
         ck.correspond(hb, db, [read_replay(ck.replay)], label="trie", nontrivial=nontrivial, ubsan_is_violation=r"trie\.(cpp|tpp|hpp)")
     else:
-        n = 800 if ck.tier == "quick" else 40000
+        n = 700 if ck.tier == "quick" else 10000
         hs = CORPUS + [gen_history(ck.rng) for _ in range(n)]
-        ck.correspond(hb, db, hs, label="trie", nontrivial=nontrivial, timeout=1800, ubsan_is_violation=r"trie\.(cpp|tpp|hpp)")
+        ck.correspond(hb, db, hs, label="trie", nontrivial=nontrivial, timeout=7200, ubsan_is_violation=r"trie\.(cpp|tpp|hpp)")
+        # every history of <= 2 (thorough: <= 3) operations, the next depth sampled
         depth = 3 if ck.tier == "quick" else 4
         ex = []
         for d in range(1, depth + 1):
-            if d == depth and ck.tier == "quick":
-                # the deepest level is sampled in the quick tier, complete in the thorough tier
-                allh = list(exhaustive(d, 0)) + list(exhaustive(d, 1))
-                ex += ck.rng.sample(allh, 1500)
-            else:
-                ex += list(exhaustive(d, 0)) + list(exhaustive(d, 1))
+            allh = list(exhaustive(d, 0)) + list(exhaustive(d, 1))
+            if d == depth:
+                allh = ck.rng.sample(allh, 1000 if ck.tier == "quick" else 30000)
+            ex += allh
         ck.cov["counters"]["exhaustive_depth"] = depth
-        ck.correspond(hb, db, ex, label="exhaustive", nontrivial=nontrivial, timeout=3000, ubsan_is_violation=r"trie\.(cpp|tpp|hpp)")
+        ck.correspond(hb, db, ex, label="exhaustive", nontrivial=nontrivial, timeout=7200, ubsan_is_violation=r"trie\.(cpp|tpp|hpp)")
     ck.finish(META["level_text"])
